@@ -269,6 +269,13 @@ class C17(Engine):
             argv.append(rng.pick(["", ".", "..", "/", "nothere.hex"]))
         if rng.chance(1, 30):
             argv.append(rng.pick(["-bogus", "-address", "-sim_serial", "-set_pc", "second.hex", "-disasm_range", "-break_io", "-bin"]))
+        if rng.chance(1, 12):
+            # an option cut short at the very end of the command line (after the file name): 0 .. n-1 of its n arguments
+            cut = rng.pick([["-sim_serial"], ["-sim_serial", "0x10"], ["-sim_serial", "0x200", "ser.in"], ["-address"], ["-set_pc"],
+                            ["-break_io"], ["-disasm_range"]])
+            argv += cut
+            if "ser.in" in cut and plan.get("serial") is None:
+                plan["serial"] = rng.bytes(rng.below(20)).decode("latin-1")
         plan["argv"] = argv
         plan["mode"] = mode
         # console
